@@ -586,4 +586,33 @@ theorem UnmarshalText_reject_unchanged (P : Par) (t : Bytes) (cur : Int) (fl0 : 
   rw [UnmarshalText_matches_source, reject_unchanged P.lower cur t h]
   simp
 
+/-- `Level.Enabled`: at or above -/
+theorem Enabled_matches_source (P : Par) (l lvl : Int) (fl0 : Env) (fuel : Nat) :
+    run (X P) (fuel + 1) "LevelEnabled" [.int lvl] (("lvl", .int l) :: fl0) = .done [.bool (decide (lvl ≥ l))] (("lvl", .int l) :: fl0) := by
+  apply run_of_fin (X P) _ _ Gen.TransLevel.LevelEnabled _ _ _ _ rfl rfl
+  rw [exec_succ]; simp [LevelEnabled_body]
+
+/-- `MarshalText`: the bytes of `String()`, never an error -/
+theorem MarshalText_matches_source (P : Par) (l : Int) (fl0 : Env) (fuel : Nat) :
+    run (X P) (fuel + 2) "LevelMarshalText" [] (("lvl", .int l) :: fl0) = .done [.bytes (stringSpec P l), .list []] (("lvl", .int l) :: fl0) := by
+  have hs := String_matches_source P l fl0 fuel
+  have hfin : (exec (X P) (fuel + 1) LevelString_body ⟨[], ("lvl", .int l) :: fl0⟩).fin = some ([.bytes (stringSpec P l)], ("lvl", .int l) :: fl0) := by
+    simp only [run, X_funs, funs_LevelString, LevelString_params_eq, LevelString_named_eq, LevelString_body_eq] at hs
+    cases h : exec (X P) (fuel + 1) LevelString_body ⟨[], ("lvl", .int l) :: fl0⟩ <;> simp_all [Out.fin]
+  have hcall : ∀ σ : State, retK σ [.loc "l0"] "LevelString" (exec (X P) (fuel + 1) LevelString_body ⟨[], ("lvl", .int l) :: fl0⟩) = _ :=
+    fun σ => retK_of_fin1 σ _ _ _ _ _ hfin
+  apply run_of_fin (X P) _ _ Gen.TransLevel.LevelMarshalText _ _ _ _ rfl rfl
+  rw [exec_succ]; simp [LevelMarshalText_body, hcall]
+
+/-- `(*Level).Set` (flag.Value): `UnmarshalText` of the string's bytes -/
+theorem Set_matches_source (P : Par) (t : Bytes) (cur : Int) (fl0 : Env) (fuel : Nat) :
+    run (X P) (fuel + 3) "LevelSet" [.bytes t] (("lvl", .int cur) :: ("isnil", .bool false) :: fl0) =
+      .done [if (unmarshalInto P.lower cur t).1 then .list [] else unmarshalErr t]
+        (("lvl", .int (unmarshalInto P.lower cur t).2) :: ("isnil", .bool false) :: fl0) := by
+  have hcall : ∀ σ : State, retK σ [.loc "l0"] "UnmarshalText"
+      (exec (X P) (fuel + 2) UnmarshalText_body ⟨[("p0", .bytes t)], ("lvl", .int cur) :: ("isnil", .bool false) :: fl0⟩) = _ :=
+    fun σ => retK_of_fin1 σ _ _ _ _ _ (UnmarshalText_exec_matches_source P t cur fl0 fuel)
+  apply run_of_fin (X P) _ _ Gen.TransLevel.LevelSet _ _ _ _ rfl rfl
+  rw [exec_succ]; simp [LevelSet_body, hcall]
+
 end ZapVerif.C20
